@@ -64,6 +64,8 @@ enum Op {
     /// `==` / `!=` with the shared container on the right, inside a tuple, negated
     EqVia(&'static str, Vec<i64>),
     MEqVia(&'static str, Vec<(i64, i64)>),
+    /// `m[i] = (k, v)` (run_index_assign, Map arm)
+    MSetAt(usize, i64, i64),
     /// host API only: KMap::remove_path
     RemPath(i64),
     // ---- compound (several guards / callbacks): executed, result not compared ----
@@ -140,6 +142,7 @@ impl Op {
             Op::Ins1(k) => format!("(ins1 {})", k),
             Op::Put(k, v) => format!("(put {} {})", k, v),
             Op::Rem(k) | Op::RemPath(k) => format!("(rem {})", k),
+            Op::MSetAt(i, k, v) => format!("(setat {} {} {})", i, k, v),
             Op::MGet(k) | Op::MAccess(k) => format!("(get {})", k),
             Op::Has(k) => format!("(has {})", k),
             Op::GetI(i) | Op::MIdx(i) => format!("(geti {})", i),
@@ -192,6 +195,9 @@ impl Op {
                 "debug" => "  r.push('{c:?}')\n".into(),
                 "concat" => "  r.push(c + [])\n".into(),
                 "slice" => "  r.push(c[..])\n".into(),
+                "json" => "  r.push(json.to_string(c))\n".into(),
+                "yaml" => "  r.push('[' + yaml.to_string(c) + ']')\n".into(),
+                "toml" => "  r.push('[' + toml.to_string(c) + ']')\n".into(),
                 _ => "  r.push(c.to_tuple())\n".into(),
             },
             Op::Sort | Op::MSort => "  c.sort()\n  r.push('u')\n".into(),
@@ -247,12 +253,13 @@ impl Op {
                 _ => format!("  r.push(not ({} != c))\n", map_lit(es)),
             },
             Op::RemPath(k) => format!("  r.push(c.remove('k{}'))\n", k),
+            Op::MSetAt(i, k, v) => format!("  r.push(mset_at(c, {}, 'k{}', {}))\n", i, k, v),
             Op::Compound(n) => format!("  {}\n  r.push('u')\n", compound_src(n)),
         }
     }
 }
 
-const SCRIPT_HEAD: &str = "set_at = |c, i, x|\n  try\n    c[i] = x\n    'u'\n  catch _\n    'E'\n\nidx_at = |c, i|\n  try\n    c[i]\n  catch _\n    null\n\ntry_call = |f|\n  try\n    f()\n    'u'\n  catch _\n    'E'\n\ntry_val = |f|\n  try\n    f()\n  catch _\n    'E'\n\ntry_null = |f|\n  try\n    f()\n  catch _\n    null\n\nlast_m = |c|\n  match c\n    (..., last) then last\n    else null\n\nlast_a = |(others..., last)| last\n\nfirst_m = |c|\n  match c\n    (first, ...) then first\n    else null\n\ntail_m = |c|\n  t = match c\n    (first, rest...) then rest\n    else []\n  if t == null then [] else t\n\ninit_m = |c|\n  t = match c\n    (others..., last) then others\n    else []\n  if t == null then [] else t\n\n";
+const SCRIPT_HEAD: &str = "set_at = |c, i, x|\n  try\n    c[i] = x\n    'u'\n  catch _\n    'E'\n\nmset_at = |c, i, k, v|\n  try\n    c[i] = (k, v)\n    'u'\n  catch _\n    'E'\n\nidx_at = |c, i|\n  try\n    c[i]\n  catch _\n    null\n\ntry_call = |f|\n  try\n    f()\n    'u'\n  catch _\n    'E'\n\ntry_val = |f|\n  try\n    f()\n  catch _\n    'E'\n\ntry_null = |f|\n  try\n    f()\n  catch _\n    null\n\nlast_m = |c|\n  match c\n    (..., last) then last\n    else null\n\nlast_a = |(others..., last)| last\n\nfirst_m = |c|\n  match c\n    (first, ...) then first\n    else null\n\ntail_m = |c|\n  t = match c\n    (first, rest...) then rest\n    else []\n  if t == null then [] else t\n\ninit_m = |c|\n  t = match c\n    (others..., last) then others\n    else []\n  if t == null then [] else t\n\n";
 
 /// a large comparison operand is built once at load time (a literal of that size exceeds the
 /// compiler's register limit)
@@ -480,6 +487,19 @@ impl St {
                 Some((k, v)) => format!("({} {})", k, v),
                 None => "null".into(),
             },
+            (St::M(m), Op::MSetAt(i, k, v)) => {
+                if *i >= m.len() {
+                    "E".into()
+                } else {
+                    match m.iter().position(|e| e.0 == *k) {
+                        Some(j) if j != *i => "E".into(),
+                        _ => {
+                            m[*i] = (*k, *v);
+                            "u".into()
+                        }
+                    }
+                }
+            }
             (St::M(m), Op::MSort) => {
                 m.sort_by_key(|e| e.0);
                 "u".into()
